@@ -413,15 +413,25 @@ func keysI(m map[string]int) []string {
 }
 
 func protoClass(v string) string {
-	// "event N: <text>" -> first words of the text without numbers
+	// "event N: <text> [called from <site>]" -> first words of the text + the call site
 	if k := strings.Index(v, ": "); k >= 0 {
 		v = v[k+2:]
 	}
-	w := strings.Fields(v)
-	if len(w) > 4 {
-		w = w[:4]
+	site := ""
+	if k := strings.LastIndex(v, " [called from "); k >= 0 {
+		site = "@" + strings.TrimSuffix(v[k+len(" [called from "):], "]")
+		v = v[:k]
 	}
-	return strings.Join(w, " ")
+	w := strings.Fields(v)
+	for i, x := range w {
+		if strings.ContainsAny(x, "0123456789") {
+			w[i] = "N"
+		}
+	}
+	if len(w) > 5 {
+		w = w[:5]
+	}
+	return strings.Join(w, " ") + site
 }
 
 // ---- structured documents ----
